@@ -3,6 +3,7 @@
 """
 
 import itertools
+import os
 from operator import itemgetter
 
 import numpy as np
@@ -12,6 +13,10 @@ from .auxiliary import _p_norm, union_crit_pairs
 from .base import PersLandscape
 
 __all__ = ["PersLandscapeExact"]
+
+# Verification hook (off unless PERSIM_VERIF=1): records when the repeated-bar
+# shortcut of compute_landscape copies a depth, as ("dup_shortcut", depth index).
+_VERIF_TRACE = [] if os.environ.get("PERSIM_VERIF") == "1" else None
 
 
 class PersLandscapeExact(PersLandscape):
@@ -302,6 +307,8 @@ class PersLandscapeExact(PersLandscape):
                     for _ in range(duplicate):
                         L.append(L[-1])
                         landscape_idx += 1
+                        if _VERIF_TRACE is not None:
+                            _VERIF_TRACE.append(("dup_shortcut", landscape_idx))
 
                 else:
                     # set (b', d')  to be the first term so that d' > d
